@@ -558,3 +558,184 @@ Proof.
   apply reachable_coinv in H. destruct (wc comp w) as [d|h]; [|reflexivity].
   cbn [comp_oob]. destruct H as (_ & _ & H & _). exact H.
 Qed.
+
+(* ------------------------------------------------------------------ *)
+(* the ghost state of the dynCompressor: X = bytes slid out of the buffer; the events so far
+   followed by the pending tokens stand for X ++ buf[0, idx) *)
+
+Definition ghost (W : N) (X buf : list N) (idx : N) (tr : list event) (toks : list tok) : Prop :=
+  exists H, tr_ok W (rev tr) H /\ toks_ok W (lenN H) (rev toks) /\ lits_ok (rev toks) /\
+    expand_rev (rev toks) H = rev (firstn (N.to_nat idx) buf) ++ rev X.
+
+Lemma ghost_lz : forall W X buf idx tr toks ntok maxTok flush r,
+  ghost W X buf idx tr toks -> idx <= lenN buf -> bytes_ok buf ->
+  lz_ok W buf idx toks ntok maxTok flush r -> ghost W X buf (lz_off r) tr (lz_toks r).
+Proof.
+  intros W X buf idx tr toks ntok maxTok flush r (H & G1 & G2 & G3 & G4) Hidx Hb
+         (new & K1 & K2 & K3 & K4 & K5 & K6 & K7).
+  exists H. split; [exact G1|]. rewrite K1, rev_app_distr.
+  assert (Hlen : lenN H + tlen (rev toks) = lenN X + idx).
+  { rewrite <- expand_len, G4, lenN_app, !lenN_rev, lenN_firstn by exact Hidx. lia. }
+  split; [|split].
+  - apply toks_ok_app. split; [exact G2|]. eapply toks_ok_mono; [exact K6|lia].
+  - unfold lits_ok. apply Forall_app. split; [exact G3|].
+    apply lits_from with (h := rev (firstn (N.to_nat idx) buf)). rewrite K5.
+    apply Forall_rev, Forall_firstn_, Hb.
+  - rewrite expand_rev_app, G4.
+    rewrite (expand_rev_lift W) by (rewrite lenN_rev, lenN_firstn by exact Hidx; exact K6).
+    rewrite K5. reflexivity.
+Qed.
+
+Lemma ghost_emit : forall W X buf idx tr toks last,
+  ghost W X buf idx tr toks -> ghost W X buf idx (EBlock (frev toks) last :: tr) [].
+Proof.
+  intros W X buf idx tr toks last (H & G1 & G2 & G3 & G4).
+  exists (expand_rev (rev toks) H). cbn [rev]. rewrite frev_rev.
+  split; [apply tr_ok_block; assumption|]. split; [exact I|]. split; [constructor|].
+  cbn [expand_rev]. exact G4.
+Qed.
+
+Lemma ghost_sync : forall W X buf idx tr toks,
+  ghost W X buf idx tr toks -> ghost W X buf idx (ESync :: tr) toks.
+Proof.
+  intros W X buf idx tr toks (H & G1 & G2 & G3 & G4).
+  exists H. cbn [rev]. split; [apply tr_ok_sync; exact G1|]. auto.
+Qed.
+
+Lemma ghost_slide : forall W X buf idx tr toks off,
+  ghost W X buf idx tr toks -> off <= idx ->
+  ghost W (X ++ firstn (N.to_nat off) buf) (skipn (N.to_nat off) buf) (idx - off) tr toks.
+Proof.
+  intros W X buf idx tr toks off (H & G1 & G2 & G3 & G4) Hoff.
+  exists H. split; [exact G1|]. split; [exact G2|]. split; [exact G3|].
+  rewrite G4. rewrite (rev_app_distr X), app_assoc.
+  rewrite <- (rev_app_distr (firstn (N.to_nat off) buf)), <- firstn_split.
+  do 3 f_equal. lia.
+Qed.
+
+Lemma ghost_append : forall W X buf idx tr toks chunk,
+  ghost W X buf idx tr toks -> idx <= lenN buf -> ghost W X (buf ++ chunk) idx tr toks.
+Proof.
+  intros W X buf idx tr toks chunk (H & G1 & G2 & G3 & G4) Hidx.
+  exists H. split; [exact G1|]. split; [exact G2|]. split; [exact G3|].
+  rewrite G4, firstn_app.
+  replace (N.to_nat idx - length buf)%nat with O by (unfold lenN in Hidx; lia).
+  cbn [firstn]. rewrite app_nil_r. reflexivity.
+Qed.
+
+Lemma ghost_final : forall W X buf tr,
+  ghost W X buf (lenN buf) tr [] -> tr_ok W (rev tr) (rev (X ++ buf)).
+Proof.
+  intros W X buf tr (H & G1 & _ & _ & G4). cbn [rev expand_rev] in G4.
+  unfold lenN in G4. rewrite Nat2N.id, firstn_all in G4. rewrite rev_app_distr, <- G4. exact G1.
+Qed.
+
+Lemma ghost_empty : forall W tr toks idx,
+  ghost W [] [] idx tr toks -> tr_ok W (rev tr) [].
+Proof.
+  intros W tr toks idx (H & G1 & _ & _ & G4). rewrite firstn_nil in G4. cbn [rev app] in G4.
+  assert (HL : lenN H = 0).
+  { pose proof (expand_len (rev toks) H) as E. rewrite G4, lenN_nil in E. lia. }
+  apply lenN_0 in HL. subst H. exact G1.
+Qed.
+
+Lemma lz_ok_advance : forall W buf idx toks ntok maxTok flush r,
+  lz_ok W buf idx toks ntok maxTok flush r -> idx <= lenN buf -> ntok < lz_ntok r -> idx < lz_off r.
+Proof.
+  intros W buf idx toks ntok maxTok flush r (new & K1 & K2 & K3 & K4 & K5 & K6 & K7) Hidx Hnt.
+  assert (Hne : rev new <> []).
+  { intros E. apply (f_equal (@rev tok)) in E. rewrite rev_involutive in E. cbn [rev] in E.
+    subst new. rewrite lenN_nil in K2. lia. }
+  pose proof (tlen_pos _ _ _ K6 Hne) as HP.
+  pose proof (expand_len (rev new) (rev (firstn (N.to_nat idx) buf))) as E.
+  rewrite K5, !lenN_rev, !lenN_firstn in E by lia. lia.
+Qed.
+
+(* ------------------------------------------------------------------ *)
+(* invariant of the dynCompressor on a healthy destination, D = data accumulated so far *)
+
+Definition dinv (W : N) (D : list N) (c : dyn) : Prop :=
+  oinv c /\ dW c = W /\ dfail (ddest c) = None /\ bytes_ok D /\ dntok c < max_token /\
+  lenN (dbuf c) <= 2 * W + 258 /\
+  exists X, D = X ++ dbuf c /\ dproc c = lenN X + didx c /\
+    ghost W X (dbuf c) (didx c) (dtrace (ddest c)) (dtoks c).
+
+Lemma encode_block_healthy : forall c last, dfail (ddest c) = None ->
+  exists bb d1,
+    dyn_encode_block c last =
+      (mkdyn (dW c) (dmask c) (dsync c) (dbuf c) (didx c) (dproc c) (dtable c) [] 0 bb d1 (doob c), false) /\
+    dfail d1 = None /\ dtrace d1 = EBlock (frev (dtoks c)) last :: dtrace (ddest c).
+Proof.
+  intros c last H. unfold dyn_encode_block.
+  destruct (encode_block (dsync c) (frev (dtoks c)) last (dbb c)) as [chunks bb].
+  destruct (dest_write_all_healthy chunks (dest_event (ddest c) (EBlock (frev (dtoks c)) last)) H)
+    as (d1 & E1 & F1 & T1).
+  rewrite E1. exists bb, d1. split; [reflexivity|]. split; [exact F1|exact T1].
+Qed.
+
+Lemma max_token_pos : 0 < max_token.
+Proof. unfold max_token. lia. Qed.
+
+Lemma loop_dinv : forall W D flush final fuel c,
+  dinv W D c -> nonfinal (dtrace (ddest c)) ->
+  (N.to_nat (lenN (dbuf c) - didx c) < fuel)%nat ->
+  exists c', dyn_compress_loop fuel c flush final = (c', false) /\ dinv W D c' /\
+    dbuf c' = dbuf c /\ lenN (dbuf c) - 8 <= didx c' /\
+    (flush = true -> didx c' = lenN (dbuf c) /\ dtoks c' = [] /\
+        exists ts t, dtrace (ddest c') = EBlock ts final :: t /\ nonfinal t) /\
+    (final = false -> nonfinal (dtrace (ddest c'))).
+Proof.
+  intros W D flush final. induction fuel as [|f IH]; intros c Hd Hnf Hf; [lia|].
+  rewrite loop_unfold. cbv zeta.
+  destruct Hd as (Ho & HW & Hfail & HbD & Hnt & Hcap & X & HD & Hproc & Hg).
+  destruct (lz_oinv c flush Ho) as (Noob & HK & Ho1).
+  pose proof Ho as (_ & _ & _ & Hidx & _).
+  assert (Hbuf : bytes_ok (dbuf c)).
+  { unfold bytes_ok in *. rewrite HD in HbD. apply Forall_app in HbD. apply HbD. }
+  rewrite HW in HK.
+  pose proof (ghost_lz _ _ _ _ _ _ _ _ _ _ Hg Hidx Hbuf HK) as Hg1.
+  pose proof HK as (new & K1 & K2 & K3 & K4 & K5 & K6 & K7).
+  set (r := lzcall c flush) in *. set (c1 := after_lz c r) in *.
+  change (dntok c1) with (lz_ntok r). change (didx c1) with (lz_off r).
+  change (dbuf c1) with (dbuf c).
+  destruct ((lz_ntok r <? max_token) && negb flush) eqn:EA.
+  - (* return without emitting *)
+    assert (flush = false) by (destruct flush; [cbn in EA; lia|reflexivity]). subst flush.
+    exists c1. split; [reflexivity|]. split.
+    + split; [exact Ho1|]. split; [exact HW|]. split; [exact Hfail|]. split; [exact HbD|].
+      split; [cbn [c1 after_lz dntok]; lia|]. split; [exact Hcap|].
+      exists X. split; [exact HD|]. split; [cbn [c1 after_lz dproc didx]; lia|exact Hg1].
+    + split; [reflexivity|]. split.
+      * apply (lz77_progress (dmask c) (dW c) (dbuf c) (dproc c) (didx c) (dtable c) (dtoks c)
+                 (dntok c) max_token Hidx Noob). fold (lzcall c false). fold r. lia.
+      * split; [intros E; discriminate E|]. intros _. exact Hnf.
+  - (* emit a block *)
+    destruct (encode_block_healthy c1 (final && (lz_off r =? lenN (dbuf c))) Hfail)
+      as (bb & d1 & E1 & F1 & T1).
+    rewrite E1.
+    set (c2 := mkdyn (dW c1) (dmask c1) (dsync c1) (dbuf c1) (didx c1) (dproc c1) (dtable c1) [] 0
+                     bb d1 (doob c1)) in *.
+    assert (Hd2 : dinv W D c2).
+    { split; [eapply oinv_frame; [exact Ho1|reflexivity..]|]. split; [exact HW|].
+      split; [exact F1|]. split; [exact HbD|]. split; [exact max_token_pos|]. split; [exact Hcap|].
+      exists X. split; [exact HD|]. split; [cbn [c2 c1 after_lz dproc didx]; lia|].
+      cbn [c2 ddest dtoks dbuf didx]. rewrite T1. apply ghost_emit. exact Hg1. }
+    destruct (lz_off r =? lenN (dbuf c)) eqn:EE.
+    + exists c2. split; [reflexivity|]. split; [exact Hd2|]. split; [reflexivity|].
+      split; [cbn [c2 c1 after_lz didx]; lia|]. split.
+      * intros _. split; [cbn [c2 c1 after_lz didx]; lia|]. split; [reflexivity|].
+        cbn [c2 ddest]. rewrite T1, andb_true_r. eexists _, _. split; [reflexivity|exact Hnf].
+      * intros Ef. cbn [c2 ddest]. rewrite T1. constructor; [|exact Hnf].
+        subst final. reflexivity.
+    + assert (Hge : dntok c < lz_ntok r).
+      { destruct flush; cbn [negb] in EA; [|lia].
+        destruct (N.leb_spec (lz_ntok r) max_token) as [Hle|Hgt]; [|lia].
+        specialize (K7 eq_refl Hle). lia. }
+      assert (Hadv : didx c < lz_off r).
+      { eapply lz_ok_advance; [exact HK|exact Hidx|exact Hge]. }
+      destruct (IH c2 Hd2) as (c' & R1 & R2 & R3 & R4 & R5 & R6).
+      * cbn [c2 ddest]. rewrite T1, andb_false_r. constructor; [reflexivity|exact Hnf].
+      * cbn [c2 c1 after_lz didx dbuf]. lia.
+      * exists c'. split; [exact R1|]. split; [exact R2|]. split; [exact R3|].
+        split; [exact R4|]. split; [exact R5|exact R6].
+Qed.
